@@ -22,7 +22,9 @@ from pv import lib_net
 from pv.core import REPO, exc_site
 
 # "<api>@<pre>": the channel is first put into a half-closed state by the application (pre = shutdown_read | shutdown_2)
-PRE_APIS = ["recv@shutdown_read", "recv@shutdown_2", "recv_stderr@shutdown_read", "recv_stderr@shutdown_2",
+PRE_APIS = ["recv@stray_open_failure", "recv_exit_status@stray_open_failure", "send@stray_open_failure",
+            "exec_command@stray_open_failure", "recv@stray_open_success",
+            "recv@shutdown_read", "recv@shutdown_2", "recv_stderr@shutdown_read", "recv_stderr@shutdown_2",
             "recv_stderr", "send_stderr", "recv_exit_status@shutdown_read"]
 APIS = ["recv", "recv_timeout", "send", "sendall", "exec_command", "recv_exit_status", "open_session",
         "global_request", "renegotiate_keys", "auth_password", "start_client", "accept", "ensure_session"]
@@ -87,6 +89,28 @@ def scenario(api, loss, phase, T, seed):
         if api in ("send", "sendall", "send_stderr"):
             with chan.lock:
                 chan.out_window_size = 0  # the peer's window is exhausted: the sender must wait
+        if pre.startswith("stray_"):
+            # the peer slips in a message that names this (established) channel or a dead one; nothing may change
+            from paramiko.message import Message
+            from paramiko import common as _c
+
+            m = Message()
+            if pre == "stray_open_failure":
+                m.add_byte(_c.cMSG_CHANNEL_OPEN_FAILURE)
+                m.add_int(chan.chanid)
+                m.add_int(1)
+                m.add_string("no")
+                m.add_string("en")
+            elif pre == "stray_open_success":
+                m.add_byte(_c.cMSG_CHANNEL_OPEN_SUCCESS)
+                m.add_int(chan.chanid)
+                m.add_int(77)
+                m.add_int(1 << 20)
+                m.add_int(1 << 15)
+            ts._send_message(m)
+            probe = tc.open_session(timeout=15)  # a round trip: the stray message has been handled
+            ts.accept(5)
+            del probe
         if pre == "shutdown_read":
             chan.shutdown_read()
         elif pre == "shutdown_2":
@@ -786,7 +810,7 @@ META = {
               "channel requests raced by the loss. The ORDER of the wake-ups on both shutdown paths and the guard of "
               "Channel._event_pending are regenerated from the AST every run and the rows are built from them "
               "(accept_is_notified_after_inactive, both_paths_close_channels, closing_a_channel_wakes_every_waiter, "
-              "no_caller_waits_with_a_teardown_lock_held, every_api_has_a_row, "
+              "no_caller_waits_with_a_teardown_lock_held, open_channels_stay_in_the_map, every_api_has_a_row, "
               "no_unclassified_wait_site; witnesses "
               "accept_notify_before_inactive_hangs_witness, channel_request_old_hangs_when_loss_races_the_call_witness)."),
     "note": ("Not modelled: wake-up latency, OS thread scheduling, sockets and child-process signalling. On the real "
